@@ -36,6 +36,7 @@ var riskyFeatures = []string{
 	"switch.default-middle", "switch.group", "switch.fallthrough",
 	"dowhile.then-prefix-incdec", "collect", "counter.bump",
 	"loop.fordown", "break.in.fordown", "continue.in.fordown",
+	"loop.for-le", "counter.read-after-loop", "switch.duplicate-label",
 }
 
 var featurePrereq = map[string][]string{
